@@ -131,4 +131,5 @@ def thorough_text(ck, M, nat, TOK, OPC):
             ck.violation(f"imm:{lit}", f"LDAC {lit} mis-encoded natively: {line}", ck.replay_file(f"imm:{lit}", {'source': f"LDAC {lit}", 'native_output': line}))
 
 if __name__ == '__main__':
-    main()
+    from lib.report import guarded
+    guarded(main)
